@@ -774,6 +774,9 @@ def pair_inputs(d, rng, tier):
     return out
 
 
+OPS_OF_CMP = {"L": "1100", "E": "0101", "G": "0011"}
+
+
 def c12(tier, rng, rep, only=None):
     decls = only if only is not None else [d for d in guardcorpus.build_corpus(rng, tier)
                                            if d.family() == "float" and "Ord" in runner.DeclInfo(d).traits]
@@ -873,6 +876,8 @@ def c12(tier, rng, rep, only=None):
                 rep.violation("cmp disagrees with partial_cmp on %s: %s" % (c.arg, c.impl), case_payload(c, g))
             if kv.get("pcmp") != kv.get("ipcmp") or kv.get("eq") != kv.get("ieq"):
                 rep.violation("comparison differs from the inner floats on %s: %s" % (c.arg, c.impl), case_payload(c, g))
+            if "ops" in kv and kv.get("cmp") in OPS_OF_CMP and (kv["ops"] != OPS_OF_CMP[kv["cmp"]] or (kv.get("ne") == "1") != (kv["cmp"] != "E")):
+                rep.violation("the operators < <= > >= / != disagree with cmp on %s: %s" % (c.arg, c.impl), case_payload(c, g))
             if mkv is None or (kv.get("eq"), kv.get("pcmp"), kv.get("cmp")) != (mkv.get("eq"), mkv.get("pcmp"), mkv.get("cmp")):
                 rep.violation("model and implementation differ on cmp2 %s: %s vs %s" % (c.arg, c.impl, c.model), case_payload(c, g), no_input=True)
             a, b_ = c.arg[3:-1].split(") (")
